@@ -313,6 +313,27 @@ def check(ctx):
                        'recursive call outside the understood measure idioms', site=f.loc(n))
     ctx.floor('C09.R4.measure', n_rec, 8, 'recursive call sites')
     _limits_poll(ctx, p)
+    # the parameter words of `go` fill the limit they name (one turn of the token loop per word)
+    from rules.ucitab import go_words, fills
+    gf_, gw = go_words(p)
+    ctx.analysed(gf_)
+    for w_, fld in (('depth', 'depth'), ('nodes', 'nodes'), ('movetime', 'movetime')):
+        ctx.ob('C09.R6.go-words', w_, w_ in gw and fills(gw[w_], fld),
+               '`go %s N` reads N into limits.%s and nothing else (one turn of the token loop does %s)' % (w_, fld, gw.get(w_)),
+               site=gf_.loc())
+    sm = gw.get('searchmoves') or []
+    from rules.norm import Norm as _Ng
+    fills_sm = [n for n in gf_.all_nodes() if n['k'] in ('BinaryOperator', 'CXXOperatorCallExpr') and n.get('op') == '=' and
+                'searchmoves' in _Ng(gf_).s(kids(n)[0] if n['k'] == 'BinaryOperator' else kids(n)[1]) and
+                any((x.get('callee') or {}).get('n') == 'engine::Position::parse_uci' for x in walk(n))]
+    pushes = [n for n, cfid, cn in gf_.calls() if short(cn) in ('push_back', 'emplace_back') and
+              any((x.get('callee') or {}).get('n') == 'engine::Position::parse_uci' for x in walk(n))]
+    ctx.ob('C09.R6.go-words', 'searchmoves', len(sm) == 1 and sm[0].startswith('loop') and bool(fills_sm or pushes),
+           '`go searchmoves m1 .. mk` walks the rest of the line and stores parse_uci of every word in limits.searchmoves '
+           '(one turn of the token loop does %s)' % sm, site=gf_.loc())
+    inf = gw.get('infinite') or []
+    ctx.ob('C09.R6.go-words', 'infinite', len(inf) == 1 and re.fullmatch(r'\(\w+\.infinite=1\)', inf[0]) is not None,
+           '`go infinite` sets limits.infinite and nothing else (%s)' % inf, site=gf_.loc())
     ctx.note('not decided: wall-clock adherence to movetime/clock limits (limits are polled every 4096/40960 node visits)')
 
 
